@@ -175,6 +175,21 @@ def run(ctx: Ctx) -> None:
         if max(maxes) > pf + 1 or max(maxes) > 4 * T + 8:
             ctx.violation("C14|kind=stage-read-ahead|stage=lazy_pool", f"LazyPool(T={T}) pulled up to {maxes} inputs "
                           f"beyond the results consumed (prefill {pf})", {"T": T, "maxes": maxes})
+        # adversarial schedules (e.g. a consumer so slow that the workers drain the work queue between two pulls)
+        sched = []
+        for N in (20, 40, 80):
+            worst = 0
+            for k in range(6 if ctx.quick else 30):
+                exs = LD.run_scheduled(T=T, N=N, chooser=LD.random_chooser(ctx.seed * 991 + 17 * N + k + T))
+                if exs.deadlock is None and exs.result.get("rounds"):
+                    worst = max(worst, exs.result["rounds"][0]["max_ahead"])
+            sched.append(worst)
+        stage_rows.append({"stage": "lazy_pool (seeded schedules)", "T": T, "prefill": pf,
+                           "max_pulled_minus_yielded_for_20_40_80": sched})
+        if max(sched) > pf + 1 or max(sched) > 4 * T + 8:
+            ctx.violation("C14|kind=stage-read-ahead|stage=lazy_pool", f"LazyPool(T={T}) under seeded schedules pulled "
+                          f"up to {sched} inputs beyond the results consumed for sources of 20/40/80 elements "
+                          f"(prefill {pf})", {"T": T, "maxes": sched})
         ex = LD.run_free(T=T, N=None, abandon=5)  # endless source: a finite take must come back
         if ex.deadlock is not None or ex.result["rounds"][0]["outcome"] != "left":
             ctx.violation("C14|kind=take-from-endless|stage=lazy_pool", f"LazyPool(T={T}) over an endless source: "
